@@ -29,6 +29,7 @@ import numpy as np
 from ..core import Machinery, frac, close, validate_trace
 from .. import fx_emission as fx
 from .. import fx_ktable as fxk
+from .. import fx_emcalls as fxc
 
 WN = [800.0, 2500.0]
 TK = {1: 600.0, 2: 1100.0, 3: 1700.0}
@@ -257,6 +258,143 @@ def run_kvectors(ctx, cfg, label, ratios):
     return len(vecs)
 
 
+# ----------------------------------------------------------------------------
+# binding C: call walks on ONE long-lived model (spec/EmissionCalls.tla)
+# ----------------------------------------------------------------------------
+
+ENTRY_NAME = dict(model='model()', partial='partial_model()', contrib='model_contrib()', fullc='model_full_contrib()',
+                  path='path_integral()')
+
+
+def shape_ok(got, shape):
+    return got is not None and getattr(got, 'shape', None) == tuple(shape)
+
+
+def check_shared(ctx, before, a_model, given, grid, star_T, cls, vec, star_initialised=True):
+    """After a public call: every array the path integrals share is what it was (private copies / re-read
+    properties), and the star still exposes the stellar blackbody on the grid of the evaluation."""
+    bad = fxc.changed_inputs(before, a_model, given)
+    ctx.verdict('shared_inputs_read_only', not bad, cls=cls + (':' + ','.join(bad)[:80] if bad else ''),
+                detail='arrays shared by the path integrals changed during the call: %s' % ', '.join(bad), vector=vec)
+    if star_initialised:
+        ok, detail = fxc.star_is_blackbody(a_model, grid, star_T)
+        ctx.verdict('shared_inputs_read_only', ok, cls=cls + ('' if ok else ':star_sed'),
+                    detail='after the call the star does not hold the stellar blackbody: ' + detail, vector=vec)
+
+
+def check_walk_group(ctx, kind, tp, sid, walks, cache):
+    """All exported walks of one (model class, temperature profile, source set): ONE model object, the walks
+    replayed one after the other (their concatenation is a behaviour of the specification for a larger MaxCalls:
+    no walk starts with path_integral)."""
+    bc = bcols()
+    temps = [TK[t] for t in tp]
+    w0 = walks[0]
+    rp, rs, dist, kd = w0['rp'], w0['rs'], w0['dist'], w0['kd']
+    fx.reset_all()
+    mkind = 'emission' if kind == 'eclipse' else 'direct'
+    a = fxc.SourceAtmos(mkind, temps, WN, star_T=STAR_T, rp_over_rs=Fraction(rp, rs), rp_over_d=Fraction(rp, dist))
+    a.set_sources(w0['src'])
+    m = a.model
+    bstar = [fx.planck_b(w, STAR_T) for w in WN]
+    nm = len(a.mols)
+    for wk in walks:
+        vec0 = dict(calls_walk=True, kind=kind, tp=tp, sid=sid, qid=wk['qid'], calls=wk['calls'])
+        trail = []
+        last_grid = None
+        try:
+            mu_raw, w_raw = fx.raw_quadrature(wk['quad'])
+            m.set_quadratures(mu_raw, w_raw)
+            na = len(wk['quad'])
+            for ci, entry in enumerate(wk['calls']):
+                trail.append(entry)
+                logs = [r for r in wk['log'] if r['call'] == ci + 1]
+                groups = [(fxc.GREY if min(r['sub']) > nm else 'Absorption') for r in logs] if entry == 'contrib' else []
+                comps = [((fxc.GREY, 'grey') if r['sub'][0] > nm else ('Absorption', a.mols[r['sub'][0] - 1])) for r in logs] \
+                    if entry == 'fullc' else []
+                base = 'calls:%s:%s' % (kind, '>'.join(trail))
+                vec = dict(vec0, call=ci)
+                before = fxc.exposed(m)
+                o = fxc.run_entry(m, entry, last_grid, groups, comps)
+                if len(o.items) != len(logs):
+                    raise Machinery('walk %r: the specification logs %d path integrals for %s, the harness ran %d'
+                                    % (wk['calls'], len(logs), entry, len(o.items)))
+                last_grid = o.grid
+                gok = o.grid is not None and np.asarray(o.grid).shape == (len(WN),) and np.allclose(o.grid, WN, rtol=0, atol=0)
+                check_shared(ctx, before, m, a.given, WN, STAR_T, base, vec)
+                for r, (label, got) in zip(logs, o.items):
+                    sub = '+'.join(a.names_of(r['sub']))
+                    cls = '%s:%s[%s]:%s:%s' % (base, entry, sub, 'iso' if wk['isothermal'] else 'noniso', 'sat' if r['sat'] else 'unsat')
+                    v = dict(vec, sub=r['sub'])
+                    if entry == 'partial':
+                        if not (gok and shape_ok(got, (na, len(WN)))):
+                            ctx.verdict('intensity_formula', False, cls=cls, detail='%s returned %r on grid %r' % (label, got, o.grid), vector=v)
+                            continue
+                        for ai in range(na):
+                            for wi in range(len(WN)):
+                                exp, _ = fx.bsum_float(r['res'][ai][wi], bc[wi])
+                                g_ = float(got[ai][wi])
+                                ctx.verdict('intensity_formula', abs(g_ - exp) <= REL * abs(exp), cls=cls,
+                                            detail='%s after %s: angle 1/mu=%s wn=%s got %r expected %r'
+                                                   % (label, ' '.join(trail[:-1]) or 'construction', wk['quad'][ai][0], WN[wi], g_, exp), vector=v)
+                        continue
+                    if not (gok and shape_ok(got, (len(WN),))):
+                        ctx.verdict('eclipse_flux_formula' if kind == 'eclipse' else 'direct_image_proportional', False, cls=cls,
+                                    detail='%s returned %r on grid %r' % (label, got, o.grid), vector=v)
+                        continue
+                    for wi in range(len(WN)):
+                        exp, _ = fx.bsum_float(r['res'][wi], bc[wi])
+                        g_ = float(got[wi])
+                        if kind == 'eclipse':
+                            exp = exp * cache['bstar_spec'][wi] / bstar[wi]
+                            ctx.verdict('eclipse_flux_formula', abs(g_ - exp) <= REL * abs(exp), cls=cls,
+                                        detail='%s after %s: wn=%s got %r, documented integral of the sources {%s} over the stellar blackbody %r'
+                                               % (label, ' '.join(trail[:-1]) or 'construction', WN[wi], g_, sub, exp), vector=v)
+                            lo = bc[wi][wk['tmin']] / bstar[wi] * float(Fraction(rp, rs) ** 2)
+                            hi = bc[wi][wk['tmax']] / bstar[wi] * float(Fraction(rp, rs) ** 2)
+                            if wk['weightsok']:
+                                slack = EXP_M10 if r['sat'] else 0.0
+                                ctx.verdict('hot_cold_bounds', lo * (1 - 1e-12) <= g_ <= hi * (1 + slack + 1e-12), cls=cls,
+                                            detail='%s: wn=%s got %r not in [%r, %r(1+e^-10)]' % (label, WN[wi], g_, lo, hi), vector=v)
+                                if wk['isothermal']:
+                                    q_ = g_ / lo
+                                    ctx.verdict('isothermal_identity', 1 - 1e-12 <= q_ <= 1 + slack + 1e-12, cls=cls,
+                                                detail='%s of an isothermal atmosphere (sources {%s}): flux/blackbody ratio = %r' % (label, sub, q_), vector=v)
+                        else:
+                            # out = 2 F Rp^2 / (KD d^2) in the specification: F = out KD d^2 / (2 Rp^2)
+                            fl = exp * kd * dist * dist / (2.0 * rp * rp)
+                            denom = 2.0 * math.pi * fl * (a.rp_m / a.d_m) ** 2
+                            cache['direct_ratios'].append((g_ / denom, cls, v))
+        except fxc.BadReturn as ex:
+            ctx.verdict('evaluates_without_error', False, cls='calls:%s:%s' % (kind, '>'.join(trail)), detail=str(ex), vector=dict(vec0, what='raise'))
+        except Exception as ex:
+            code_raised(ctx, ex, 'calls:%s:%s' % (kind, '>'.join(trail)), dict(vec0, what='raise'))
+    ctx.traces += len(walks)
+
+
+def run_calls(ctx, cfg, label, ratios, only=None):
+    res = ctx.check_spec('calls-' + label, 'MC_EmissionCalls', cfg, workers=1, deque=True)
+    walks = res.tagged('WALK')
+    if cfg == 'MC_EmissionCalls_quick.cfg':
+        call_walks(ctx, res)
+    # what makes a write to a shared array observable: a second path integral after ONE initialisation of the star
+    multi = [w for w in walks if any(c in ('contrib', 'fullc', 'path') for c in w['calls'])]
+    if len(multi) < 10 or not any('path' in w['calls'] for w in walks) or not any(w['isothermal'] for w in multi):
+        raise Machinery('%s exports too few walks with several path integrals per initialisation (%d of %d)' % (cfg, len(multi), len(walks)))
+    groups = {}
+    for w in walks:
+        groups.setdefault((w['kind'], tuple(w['tp']), w['sid']), []).append(w)
+    cache = dict(bstar_spec=[7, 11], direct_ratios=ratios)
+    for (kind, tp, sid), g in sorted(groups.items()):
+        if only is not None and (kind, list(tp), sid) != only:
+            continue
+        check_walk_group(ctx, kind, list(tp), sid, g, cache)
+    ctx.add_sample(dict(walk=dict(calls=walks[0]['calls'], kind=walks[0]['kind'], tp=walks[0]['tp'], src=walks[0]['src'],
+                                  first_path=dict(sub=walks[0]['log'][0]['sub'], terms=walks[0]['log'][0]['res'][0]))))
+    fx.reset_all()
+    return len(walks)
+
+
+
 def check_planck(ctx):
     """Separate clause: the repository's black_body against the harness's table (1e-10)."""
     from taurex.util.emission import black_body
@@ -299,10 +437,12 @@ def random_atmos(rng, kind, iso):
     e = [[mag * rng.choice([0.0, 0.2, 1.0, 1.7]) * rng.uniform(0.5, 1.5) for _ in range(nw)] for _ in range(n)]
     a.set_layer_tau(e)
     tot = np.sum(np.array(e), axis=0) * fx.LN2
+    a.tau_of = {'Absorption': tot.copy()}           # per contribution (sub-composition) column depth
     if a.grey is not None:
         c = [[rng.choice([0.0, 0.05, 0.5]) * rng.uniform(0.5, 1.5) for _ in range(nw)] for _ in range(n)]
         a.set_grey_tau(c)
-        tot = tot + np.sum(np.array(c), axis=0) * fx.LN2
+        a.tau_of['LayerGrey'] = np.sum(np.array(c), axis=0) * fx.LN2
+        tot = tot + a.tau_of['LayerGrey']
     a.total_tau = tot
     a.saturated = bool(tot.min() >= 10.0 - 1e-9)
     a.maybe_saturated = bool(tot.min() >= 10.0 - 1e-6)
@@ -346,6 +486,77 @@ def random_katmos(rng, path, kind, iso):
     return a
 
 
+_CALL_WALKS = {}
+
+
+def call_walks(ctx=None, res=None):
+    """The call sequences exported by TLC from spec/EmissionCalls.tla (quick config), once per process."""
+    if 'w' not in _CALL_WALKS:
+        if res is None:
+            from ..core import run_tlc
+            res = run_tlc('MC_EmissionCalls', 'MC_EmissionCalls_quick.cfg', workers=1, deque=True)
+            if ctx is not None:
+                ctx.add_tlc('calls-walks', res, counts=False)
+        seqs = sorted({tuple(w['calls']) for w in res.tagged('WALK')})
+        if len(seqs) < 8:
+            raise Machinery('MC_EmissionCalls_quick.cfg exports only %d call sequences' % len(seqs))
+        _CALL_WALKS['w'] = seqs
+    return _CALL_WALKS['w']
+
+
+def replay_calls_on_random(ctx, a, kind, kmode, iso, calls, add, vec, cls0, r0):
+    """Binding B over the entry points: one TLC-generated call sequence on the SAME random model that has just been
+    evaluated.  Every path integral it runs is the spectrum of an atmosphere (the whole composition, one contribution,
+    one component): hot/cold bounds and the isothermal identity for each (events validated by Trace_Emission), and
+    the shared arrays are re-read after every call."""
+    m = a.model
+    names = ['Absorption'] + (['LayerGrey'] if a.grey is not None else [])
+    comps = [('Absorption', a.mol)] + ([('LayerGrey', 'grey')] if a.grey is not None else [])
+    given = dict(('opacity[%s][%r]' % (a.mol, k), (v, np.array(v, dtype=float, copy=True))) for k, v in a.table.items())
+    if a.grey is not None:
+        given['sigma[LayerGrey]'] = (a.grey.table, np.array(a.grey.table, dtype=float, copy=True))
+    tmin, tmax = min(a.temps), max(a.temps)
+    blo = np.array([fx.planck_b(x, tmin) for x in a.wn])
+    bhi = np.array([fx.planck_b(x, tmax) for x in a.wn])
+    if kind == 'emission':
+        geo = (a.rp_m / a.rs_m) ** 2
+        unit = geo / np.array([fx.planck_b(x, a.star_T) for x in a.wn])          # out = 2F * unit
+    else:
+        unit = np.asarray(r0, dtype=float) * math.pi * (a.rp_m / a.d_m) ** 2     # calibrated on this model's own full evaluation
+    trail, last_grid = [], a.wn
+    for ci, entry in enumerate(calls):
+        trail.append(entry)
+        base = 'calls:%s%s:%s' % ('ktable:' if kmode else '', kind, '>'.join(trail))
+        v = dict(vec, calls=list(calls), call=ci)
+        before = fxc.exposed(m)
+        o = fxc.run_entry(m, entry, last_grid, names, comps)
+        last_grid = o.grid
+        check_shared(ctx, before, m, given, a.wn, a.star_T, base, v)
+        subs = {'contrib': names, 'fullc': names}.get(entry, [None])
+        for sub, (label, got) in zip(subs, o.items):
+            tau = None if kmode else (a.total_tau if sub is None else a.tau_of.get(sub))
+            maybe = (not kmode) and tau is not None and bool(np.min(tau) >= 10.0 - 1e-6)
+            cls = '%s:%s[%s]:%s:%s' % (base, entry, sub or 'all', 'iso' if iso else 'noniso', 'sat' if maybe else 'unsat')
+            shape = (len(m._mu_quads), len(a.wn)) if entry == 'partial' else (len(a.wn),)
+            if not shape_ok(got, shape):
+                ctx.verdict('hot_cold_bounds', False, cls=cls, detail='%s returned %r' % (label, got), vector=v)
+                continue
+            val = got if entry == 'partial' else got / unit          # intensity, or 2F = sum of w mu I over sum w mu
+            lo, hi = float(np.min(val / blo)), float(np.max(val / bhi))
+            if not (math.isfinite(lo) and math.isfinite(hi)):
+                ctx.verdict('hot_cold_bounds', False, cls=cls, detail='%s returned %r' % (label, got), vector=v)
+                continue
+            add(dict(ev='bounds', lo=scaled(lo), hi=scaled(hi), S=S_TRACE, sat=1 if maybe else 0, iso=0), cls,
+                '%s after %s: value/cold >= %r, value/hot <= %r' % (label, ' '.join(trail[:-1]) or 'model()', lo, hi), v)
+            if iso:
+                top = float(np.max(val / blo))
+                ok = lo >= 1 - 1e-12 and top <= 1 + (EXP_M10 if maybe else 0.0) + 1e-12
+                ctx.verdict('isothermal_identity', ok, cls=cls,
+                            detail='%s of an isothermal atmosphere after %s: value / blackbody ratio in [%r, %r]'
+                                   % (label, ' '.join(trail[:-1]) or 'model()', lo, top), vector=v)
+
+
+
 def run_traces(ctx, n_models, n_k=0):
     with fx.TempDir() as kpath:
         _run_traces(ctx, n_models, n_k, kpath)
@@ -354,6 +565,8 @@ def run_traces(ctx, n_models, n_k=0):
 def _run_traces(ctx, n_models, n_k, kpath):
     rng = random.Random(ctx.seed * 104729 + 2)
     krng = random.Random(ctx.seed * 104729 + 7)
+    wrng = random.Random(ctx.seed * 104729 + 13)
+    seqs = call_walks(ctx)
     events, meta = [], {}
     direct = []
 
@@ -428,6 +641,11 @@ def _run_traces(ctx, n_models, n_k, kpath):
                     ctx.verdict('isothermal_identity', f_ok, cls=cls0, detail='flux/(B(T)/B(T*)(Rp/Rs)^2) in [%r, %r]' % (min(rF_lo), max(rF_lo)), vector=vec)
                     add(dict(ev='bounds', lo=scaled(min(rF_lo)), hi=scaled(max(rF_lo)), S=S_TRACE, sat=slack, iso=1),
                         cls0 + ':flux_identity', 'flux ratio in [%r, %r]' % (min(rF_lo), max(rF_lo)), vec)
+            calls = seqs[wrng.randrange(len(seqs))]
+            r0 = None if kind == 'emission' else np.asarray(out, dtype=float) / (math.pi * twoF * (a.rp_m / a.d_m) ** 2)
+            replay_calls_on_random(ctx, a, kind, kmode, iso, calls, add, vec, cls0, r0)
+        except fxc.BadReturn as ex:
+            ctx.verdict('evaluates_without_error', False, cls='trace:model', detail=str(ex), vector=vec)
         except Exception as ex:
             code_raised(ctx, ex, 'trace:model', vec)
     # direct-image law as one stateful trace: every ratio equals the first one
@@ -549,6 +767,14 @@ def run(ctx):
     for cfg in (['EX_EmissionK_quick.cfg', 'EX_EmissionK_quick3.cfg'] if q else ['EX_EmissionK_thorough.cfg', 'EX_EmissionK_quick3.cfg']):
         run_kvectors(ctx, cfg, cfg[3:-4], ratios)
         _tick('vectors ' + cfg)
+    ctx.expect_refuted('refute-star-spectrum-rescaled-in-place', 'MC_EmissionCalls', 'MC_EmissionCalls_refute_sed.cfg', 'EveryPathDocumented', workers=1)
+    if not q:
+        ctx.expect_refuted('refute-star-spectrum-rescaled-in-place (shared arrays)', 'MC_EmissionCalls', 'MC_EmissionCalls_refute_sed_readonly.cfg',
+                           'InputsReadOnly', workers=1)
+        ctx.expect_refuted('refute-opacity-rescaled-in-place', 'MC_EmissionCalls', 'MC_EmissionCalls_refute_opacity.cfg', 'EveryPathDocumented', workers=1)
+    for cfg in (['MC_EmissionCalls_quick.cfg'] if q else ['MC_EmissionCalls_thorough.cfg', 'MC_EmissionCalls_thorough3.cfg']):
+        run_calls(ctx, cfg, cfg[17:-4], ratios)
+        _tick('calls ' + cfg)
     finish_direct_law(ctx, ratios)
     run_traces(ctx, 60 if q else 600, 16 if q else 160)
     _tick('traces')
